@@ -25,7 +25,10 @@ RULE = (
     "avro, sqlite, csvfile, line, text); thorough adds random histories of up to 12 operations.  (b) split: every N in "
     "0..3*limit+1 x limit {1,2,3,7} x suffix length {1,2,3} x target {stream, .gz, json, avro, no extension, URI forms} x "
     "{with-exit, close}, plus splits into more parts than 10**suffix-length (11..24 parts with suffix length 1; thorough > 100 with "
-    "suffix length 2); an audit hook on 'open' checks that no path is opened for writing twice.  (c) rotation: PathTemplateWriter / RecordArchiver / archive:// over templates of _generated with "
+    "suffix length 2); an audit hook on 'open' checks that no path is opened for writing twice; a slice of the grid is written with RELATIVE "
+    "target names (bare, sub/dir, split+<adapter>://name where urlparse puts the name into netloc, and rdump --split -w <uri>) by a "
+    "worker process whose cwd is the case directory: nothing on stdout, every file a correctly suffixed part in the named directory."
+    "  (c) rotation: PathTemplateWriter / RecordArchiver / archive:// over templates of _generated with "
     "a directory component - hour/day granularity AND templates that vary within one hour (minute / second fields of _generated, "
     "record data fields {record.host} / {record.n}; all records of such a case lie in one hour) -, timestamp patterns alternating between 2-3 targets inside one wall-clock second, one or two "
     "writer generations, with / without sentinel files at the targets (and at the names a rotation would pick); the expected "
@@ -241,10 +244,10 @@ def generate(ctx):
                                    "s": subseed("c17", ctx.seed, "c", wk, tname, ext, pat, sent)}
                         idx += 1
     # (b'') split targets with relative names, written by a worker process whose cwd is the case directory
-    grid = SPLIT_REL_GRID[:3] if ctx.quick else SPLIT_REL_GRID + [(2, 2, 0), (1, 1, 12)]
+    grid = SPLIT_REL_GRID[:4] if ctx.quick else SPLIT_REL_GRID + [(2, 2, 0), (1, 1, 12)]
     for form in SPLIT_REL_FORMS:
         for gi, (limit, sl, n) in enumerate(grid):
-            if ctx.quick and form.startswith("rdump") and gi:
+            if ctx.quick and form.startswith("rdump") and gi > 1:
                 continue
             end = "x" if (gi + len(form)) % 2 else "c"
             if ctx.mine(idx):
@@ -456,7 +459,7 @@ def analyse_parts(ctx, case, d, spec, read_scheme, expected, extra, sample_kind)
     """Oracle of part (b) over the files in directory d: numbering, limit, stand-alone readability, concatenation."""
     fam, codec = spec["fam"], spec["codec"]
     limit, sl, n, end = case["limit"], case["sl"], case["n"], case["end"]
-    names = sorted(os.listdir(d))
+    names = sorted(nm for nm in os.listdir(d) if not os.path.isdir(os.path.join(d, nm)))
     parts = []
     for nm in names:
         i = part_index(nm)
@@ -474,6 +477,8 @@ def analyse_parts(ctx, case, d, spec, read_scheme, expected, extra, sample_kind)
         if digits != str(i).rjust(sl, "0"):
             ctx.violation(None, "split: a part's suffix is not its number padded to the suffix length", detail=dict(extra, part=nm, files=names))
     ctx.event("b_parts", len(parts))
+    if sample_kind.startswith("splitrel"):
+        ctx.event("b_rel_parts", len(parts))  # written by a worker process: not visible to this process's open monitor
 
     concat_reader, concat_indep, raw = [], [], []
     unclassified_part_problem = False
@@ -959,7 +964,7 @@ def finish(ctx):
     ctx.require(ev.get("a_empty_outputs_valid", 0) > 0, "part (a): no empty output was validated")
     ctx.require(ev.get("b_cases", 0) > 0 and ev.get("b_parts_read", 0) > 0 and ev.get("b_raw_concatenations", 0) > 0,
                 "part (b): no split output was read back")
-    ctx.require(ev.get("b_write_opens", 0) >= ev.get("b_parts", 0) > 0, "part (b): the open monitor did not see the parts being opened")
+    ctx.require(ev.get("b_write_opens", 0) >= ev.get("b_parts", 0) - ev.get("b_rel_parts", 0) > 0, "part (b): the open monitor did not see the parts being opened")
     ctx.require(ev.get("b_cases_more_parts_than_suffix_space", 0) > 0, "part (b): no split with more parts than 10**suffix-length")
     ctx.require(ev.get("c_within_hour_cases", 0) > 0, "part (c): no template varying within one hour")
     ctx.require(ev.get("c_cases", 0) > 0 and ev.get("c_rename_events", 0) > 0 and ev.get("c_files_read", 0) > 0,
